@@ -115,12 +115,30 @@ class Repo:
                     found = child
                     break
             if found is None:
+                moved = self._relocated(module, qual)
+                if moved is not None:
+                    self._func_cache[key] = moved
+                    return moved
                 if required:
                     raise AnalysisError(f"hypercorn.{module}:{qual} not found (anchor vanished)")
                 return None
             node = found
         self._func_cache[key] = node
         return node
+
+    def _relocated(self, module: str, qual: str) -> Optional[ast.AST]:
+        """A pinned closure that is gone while exactly one NEW function of the same name exists in
+        the module (hoisted to a method or to module level) is that function."""
+        from .canon import load_known
+
+        if qual.count(".") < 1:
+            return None
+        name = qual.rsplit(".", 1)[-1]
+        known = (load_known().get(module) or {}).get("functions", [])
+        if qual not in known:
+            return None
+        cands = [fn for m, q, fn in _walk_funcs(module, "", self.modules[module].tree) if q.rsplit(".", 1)[-1] == name and q not in known]
+        return cands[0] if len(cands) == 1 else None
 
     def func(self, module: str, qual: str) -> ast.AST:
         node = self.find(module, qual)
